@@ -45,6 +45,12 @@ func runC05(c *Ctx) {
 		r.Floor("R10", "tracker effect call sites checked", n, 13)
 	}
 	c.namesRuleAs("R10", a.StTable["353"])
+	r.Rule("R11", "every line reaches the event loop, in order: in the receive goroutine each accepted line is handed over by a blocking send before the next read (shared with C03.R1) - overflow lines parked in helper goroutines arrive out of order, and a state handler cannot apply a line whose predecessor has not been applied")
+	if pf := c.producerFrame(); r.Anchor("R11", "the receive goroutine that feeds the inbound queue", pf != nil) {
+		c.handoverRule("R11", pf.Member)
+	}
+	r.Rule("R12", "a line that removes a channel or a nick removes it: the tracker's tables are indexed by names exactly as given (shared with C12.R17), so the entry a PART / KICK / QUIT names is the entry that was filed")
+	c.rawKeysRule("R12")
 	c.loopExclusionRule("R6")
 	{
 		nGo, nFn := 0, 0
@@ -559,6 +565,10 @@ func runC16(c *Ctx) {
 	c.panicSafeLocksRule("R5")
 	r.Rule("R6", "built-in handlers do not move work out of the recovered frame: every go statement in code reachable from a handler of the internal or state table by plain calls starts the dispatch machinery, a function that defers the recovery hook first, or a function in which nothing can panic (all panic obligations proved, no calls into code the library does not own)")
 	c.handlerSpawnsRule("R6")
+	r.Rule("R7", "the recovery hook the library installs can always return: nothing it reaches inside the module takes a lock the teardown holds while it waits, performs a blocking channel operation, waits for a WaitGroup or calls the teardown - it runs in every handler's frame, also while Close holds the connection mutex waiting for the event loop that waits for that handler (a hook that asks Connected() deadlocks the disconnect)")
+	c.hookNeverBlocksRule("R7")
+	r.Rule("R8", "the other handlers for the event are still delivered: in the function that fans a line out, every path from entry dispatches on the internal, the background and the foreground set - no result of one set's handlers (a count of recovered panics, say) guards the dispatch on another")
+	c.fanOutCompleteRule("R8")
 	c.handlerFrameRule("R1")
 	// R2
 	n := 0
@@ -664,3 +674,128 @@ func (c *Ctx) noWaitOnDispatchGroups(rule string) {
 }
 
 var _ = types.Typ
+
+// libraryHooks: the recovery hooks the library itself installs (functions
+// stored to Config.Recover anywhere in package client, other than values the
+// caller supplied).
+func (c *Ctx) libraryHooks() []*ssa.Function {
+	var out []*ssa.Function
+	seen := map[*ssa.Function]bool{}
+	for _, fn := range c.clientFuncs() {
+		funcInstrs(fn, func(in ssa.Instruction) {
+			s, ok := in.(*ssa.Store)
+			if !ok {
+				return
+			}
+			if fv, _ := fieldOf(s.Addr); fv != c.A.CfgRecover {
+				return
+			}
+			hooks := c.dynamicTargets(s.Val, fn, 0)
+			if h := c.funcValue(s.Val); h != nil && len(hooks) == 0 {
+				hooks = []*ssa.Function{h}
+			}
+			for _, h := range hooks {
+				if !seen[h] && c.InModuleFn(h) {
+					seen[h] = true
+					out = append(out, h)
+				}
+			}
+		})
+	}
+	return out
+}
+
+// hookNeverBlocksRule: C16.R7. The hook runs in the frame of every handler,
+// also while the teardown waits (holding the connection mutex) for the event
+// loop that is waiting for that handler. A hook the library installs
+// therefore takes no lock of the library and waits for nothing: no Lock /
+// RLock, channel operation, WaitGroup wait or teardown call in anything it
+// reaches by calls inside the module.
+func (c *Ctx) hookNeverBlocksRule(rule string) {
+	r, a := c.R, c.A
+	hooks := c.libraryHooks()
+	if !r.Anchor(rule, "recovery hook installed by the library", len(hooks) > 0) {
+		return
+	}
+	reach := c.Closure(hooks, func(from *ssa.Function, e Edge) bool {
+		return c.InModuleFn(e.Callee) && e.Callee.Package() != c.Logging
+	})
+	// the locks that matter are those the teardown holds while it waits (a lock that is only ever held for the
+	// length of a method - the tracker's - is free again by the time the hook runs: deeper frames unwind first)
+	var held LockSet
+	if tf := c.teardownFacts(c.ComputeLocksets(c.clientFuncs())); tf != nil {
+		held = tf.heldAtWait
+	}
+	n := 0
+	for _, fn := range reach.Order {
+		if !c.InModuleFn(fn) {
+			continue
+		}
+		n++
+		bad := ""
+		funcInstrs(fn, func(in ssa.Instruction) {
+			if op, ok := c.lockOpOf(in); ok && (op.Method == "Lock" || op.Method == "RLock") && (held == nil || held[op.Obj] != 0) {
+				bad = "takes " + op.Obj + ", which the teardown holds while it waits, at " + c.InstrPos(in)
+			}
+			if _, ok := isWGMethod(in, "Wait"); ok {
+				bad = "waits for a WaitGroup at " + c.InstrPos(in)
+			}
+			if cc := callOf(in); cc != nil {
+				if sc := cc.StaticCallee(); sc != nil && (sc == a.Teardown || sc == a.TeardownCore) {
+					bad = "calls the teardown at " + c.InstrPos(in)
+				}
+			}
+		})
+		for _, op := range ChanOps(fn) {
+			if op.Kind != "close" && op.Blocking {
+				bad = "blocking channel " + op.Kind + " at " + c.InstrPos(op.In)
+			}
+		}
+		r.Add(rule, "hook-never-blocks:"+c.FuncKey(fn), c.Pos(fn.Pos()), c.FuncKey(fn), "code run by the library's recovery hook takes no library lock and waits for nothing", bad == "", bad+" [reached via "+c.ChainString(reach.Funcs[fn])+"] - a handler that panics while the teardown waits for the event loop would never return")
+	}
+	r.Floor(rule, "functions run by the library's recovery hook", n, 1)
+}
+
+// fanOutCompleteRule: C16.R8. In the function that fans a line out to the
+// handler sets, every path from entry reaches the dispatch on each of the
+// three sets: what one set's handlers did (a recovered panic included) never
+// decides whether the other sets see the line.
+func (c *Ctx) fanOutCompleteRule(rule string) {
+	r, a := c.R, c.A
+	byFn := map[*ssa.Function][]ssa.CallInstruction{}
+	for _, cs := range c.SetDispatchSites() {
+		byFn[cs.Parent()] = append(byFn[cs.Parent()], cs)
+	}
+	n := 0
+	for fn, sites := range byFn {
+		has := map[*types.Var]bool{}
+		for _, cs := range sites {
+			has[c.setFieldOf(cs)] = true
+		}
+		if !has[a.FG] && !has[a.BG] {
+			continue
+		}
+		for _, fv := range []*types.Var{a.Int, a.BG, a.FG} {
+			n++
+			isSite := func(in ssa.Instruction) bool {
+				cs, ok := in.(ssa.CallInstruction)
+				if !ok {
+					return false
+				}
+				for _, s := range sites {
+					if s == cs && c.setFieldOf(cs) == fv {
+						return true
+					}
+				}
+				return false
+			}
+			all, bad := AllPathsFromEntryPass(fn, isSite)
+			why := "every path dispatches on the " + c.setName(fv) + " set"
+			if !all {
+				why = "a path from entry reaches " + c.InstrPos(bad) + " without dispatching on the " + c.setName(fv) + " set"
+			}
+			r.Add(rule, "fan-out-complete:"+c.setName(fv)+":"+c.FuncKey(fn), c.Pos(fn.Pos()), c.FuncKey(fn), "every line is dispatched on the "+c.setName(fv)+" set whatever the other sets' handlers did", all, why)
+		}
+	}
+	r.Floor(rule, "set dispatches required on every path of the fan-out function", n, 3)
+}
